@@ -334,6 +334,36 @@ def unset_optional(h):
         h.ensure('missing-required-value-is-refused', h.exc_is(e, 'ValueError'))
 
 
+@unit('C03', 'species-list-of-each-file', [TS + '._retrieve_nc_species_values', TS + '.__init__'], replay='contracts.C03:replay_two_files')
+def species_of_each_file(h):
+    """The files of one store (base and associated files, the parts of a mapped store) each have their own species dimension:
+    _retrieve_nc_species_values returns the species coordinate of the data set it is given - whatever other data sets the same
+    store object was asked about before."""
+    from contracts.storemodel import DatasetStub, GhostFile, install_store_models, make_cache, make_store
+    I = h.I
+    install_store_models(h, I)
+    st = make_store(h, I, 'READ', None, make_cache(h, I, in_memory=False), next_index=0)
+    # whatever the constructor would have initialised on the store object (attributes this model does not know of)
+    init = I.lookup_fq(TS + '.__init__')
+    import ast as _ast
+    for node in _ast.walk(init.node):
+        if isinstance(node, (_ast.Assign, _ast.AnnAssign)):
+            for tg in (node.targets if isinstance(node, _ast.Assign) else [node.target]):
+                if isinstance(tg, _ast.Attribute) and isinstance(tg.value, _ast.Name) and tg.value.id == 'self' and tg.attr not in st.attrs \
+                        and isinstance(node.value, _ast.Constant):
+                    st.attrs[tg.attr] = node.value.value
+    lists = [['CO2', 'H2O'], ['NOx', 'SO4', 'PMvol'], None, ['CO2']]
+    order = [lists[(h.choice(4) + k) % 4] for k in range(3)]
+    got = []
+    for k, names in enumerate(order):
+        f = GhostFile(f'file{k}.nc', h.int(f'rows_{k}'), lambda r: r)
+        f.species = names
+        got.append(h.method(st, '_retrieve_nc_species_values', DatasetStub(f)))
+    ok = all((g is None and names is None) or (g is not None and names is not None and [m.name for m in g] == names) for g, names in zip(got, order))
+    h.ensure('each-data-set-gives-its-own-species-list', ok,
+             note='; '.join(f'file {k}: has {names}, reported {None if g is None else [m.name for m in g]}' for k, (g, names) in enumerate(zip(got, order))))
+
+
 @unit('C03', 'container.species-of-a-trajectory', ['AEIC.storage.container:Container.species'], replay='contracts.C03:replay_unset')
 def container_species(h):
     """Container.species (what decides the species dimension of a new file): the sorted union of the species of the
@@ -993,6 +1023,60 @@ def replay_unset(payload):
             TrajectoryStore.active_in_thread = None
             shutil.rmtree(tmp, ignore_errors=True)
     return dict(reproduced=bool(problems), observed=problems[:6], required='unset optional fields of every shape can be stored and read back unset')
+
+
+def replay_two_files(payload):
+    """Native: a base file with species {CO2, H2O} and a file made by create_associated with species {NOx, SO2}: after
+    reopening both, every value carries the species it was stored under."""
+    import os
+    import shutil
+    import tempfile
+    from AEIC.storage import Dimension as D, Dimensions, FieldMetadata, FieldSet
+    from AEIC.trajectories import TrajectoryStore
+    from AEIC.types import Species, SpeciesValues
+    from contracts.C07 import _mk
+    for nm in ('c03_two_base', 'c03_two_assoc'):
+        if not FieldSet.known(nm):
+            FieldSet(nm, **{nm + '_e': FieldMetadata(dimensions=Dimensions(D.TRAJECTORY, D.SPECIES), description='', units='')})
+    tmp = tempfile.mkdtemp(prefix='c03f-', dir=os.environ.get('VERIF_SCRATCH'))
+    problems = []
+    TrajectoryStore.active_in_thread = None
+    try:
+        b, a = os.path.join(tmp, 'b.nc'), os.path.join(tmp, 'a.nc')
+        with TrajectoryStore.create(base_file=b) as ts:
+            for i in range(2):
+                t = _mk(i)
+                t.add_fields(FieldSet.from_registry('c03_two_base'))
+                t.c03_two_base_e = SpeciesValues({Species.CO2: 1.0 + i, Species.H2O: 2.0 + i})
+                ts.add(t)
+        TrajectoryStore.active_in_thread = None
+
+        class Extra:
+            def __init__(self, i):
+                self.c03_two_assoc_e = SpeciesValues({Species.NOx: 10.0 + i, Species.SO2: 20.0 + i})
+        count = [0]
+
+        def mapping(traj):
+            count[0] += 1
+            return Extra(count[0])
+        with TrajectoryStore.open(base_file=b) as ts:
+            ts.create_associated(a, ['c03_two_assoc'], mapping)
+        TrajectoryStore.active_in_thread = None
+        with TrajectoryStore.open(base_file=b, associated_files=[a]) as ts:
+            for i in range(2):
+                r = ts[i]
+                base = {k.name: float(v) for k, v in r.c03_two_base_e.items()}
+                extra = {k.name for k in r.c03_two_assoc_e.keys()}
+                if base != {'CO2': 1.0 + i, 'H2O': 2.0 + i}:
+                    problems.append(f'trajectory {i}: base-file species values read back as {base}')
+                if extra != {'NOx', 'SO2'}:
+                    problems.append(f'trajectory {i}: associated-file values stored under NOx, SO2 read back under {sorted(extra)}')
+    except Exception as e:   # noqa
+        problems.append(f'{type(e).__name__}: {e}')
+    finally:
+        TrajectoryStore.active_in_thread = None
+        shutil.rmtree(tmp, ignore_errors=True)
+    return dict(reproduced=bool(problems), observed=problems[:4], required='each file of a store keeps its own species list')
 
 
 WITNESSES = {
